@@ -1135,7 +1135,7 @@ func main() {
 	if thorough {
 		nCfgs = 10
 		stride = 12
-		coqStride = 149
+		coqStride = 199
 		classCap = 2
 	}
 	// the witness of Props/C05.v mount_independent_refuted, replayed on both implementations first: collection a with
@@ -1188,6 +1188,7 @@ func main() {
 		lrep := hx.NewReport("")
 		classSeen := map[string]int{}
 		rels := relPaths(t, thorough)
+		deepThorough := thorough && len(t.nodes) > 3
 		for ci := 0; ci < nCfgs; ci++ {
 			var c Cfg
 			c.Impl = im.name
@@ -1227,6 +1228,9 @@ func main() {
 							h := mix(idx, uint64(ti)*1000+uint64(ci)+cfg.Seed*7919)
 							if ci != 0 && h%stride != 0 {
 								continue
+							}
+							if ci == 0 && deepThorough && h%4 != 0 {
+								continue // thorough tier, deep tree: a quarter of the (much larger) product; the quick tier runs the full one
 							}
 							rq := Req{Verb: verb, Header: hv, Path: p, Query: q, Body: (h>>8)&1 == 1, Tunnel: (h>>9)&3 == 0}
 							if rq.Tunnel && rq.Query == "" && rq.Body {
@@ -1270,12 +1274,16 @@ func main() {
 							}
 							// cases for the Coq model: every behaviour class of every configuration, plus a stride
 							ck := fmt.Sprintf("%d/%s/%s/%d", ci, cls, verb, len(d.Obs.Events))
+							nk := ""
 							if rr.target != nil && len(rr.target.Path) > 1 {
-								// ... of every routed sub-resource (node identity matters: siblings, depth)
-								ck += "/" + segNames(rr.target.Path)
+								// ... once for every routed sub-resource (node identity matters: siblings, depth)
+								nk = ck + "/" + segNames(rr.target.Path)
 							}
-							if classSeen[ck] < classCap || h%coqStride == 1 {
+							if classSeen[ck] < classCap || (nk != "" && classSeen[nk] < 1) || h%coqStride == 1 {
 								classSeen[ck]++
+								if nk != "" {
+									classSeen[nk]++
+								}
 								res.picked = append(res.picked, pend{im, opsKey, d})
 							}
 						}
@@ -1360,6 +1368,9 @@ func writeCases(cfg *hx.Config, rep *hx.Report, picked []pend) {
 	per := len(picked)/32 + 1
 	if per < 200 {
 		per = 200
+	}
+	if per > 4000 {
+		per = 4000 // memory of one coqc process (16 run in parallel): ~0.2 MB per case
 	}
 	sh := hx.NewShards(cfg.Out, hb.String(), "C05Corr", per)
 	for i, p := range picked {
